@@ -90,7 +90,10 @@ fn op_mi(doc: &[u8]) -> String {
 
 /// The content of a created file: a function of (length, seed) that the model driver recomputes.
 pub fn pattern(len: usize, seed: u64) -> Vec<u8> {
-    (0..len).map(|i| (((i as u64).wrapping_mul(31).wrapping_add(seed)) ^ ((i as u64) >> 8)) as u8).collect()
+    // a multiplicative hash of the index: no two pieces of a test torrent have the same content
+    (0..len)
+        .map(|i| ((((i as u64).wrapping_add(seed.wrapping_mul(40503))).wrapping_mul(2654435761) & 0xffff_ffff) >> 24) as u8)
+        .collect()
 }
 
 /// `create <name> <tracker> <len> <seed>` → the bytes of the `.torrent` written by `create_file`, and what
